@@ -3,7 +3,7 @@
    (induction over the sequence).  The one-step lemmas are closed by exhaustive case analysis over
    the finite parts of the state (phase, oneshot state, channel fields, history flags). *)
 From Coq Require Import List NArith Bool Arith Lia.
-From Crux Require Import Timer.Machine Timer.Spec.
+From Crux Require Import Timer.Machine Timer.Spec Timer.SpecProofs.
 Import ListNotations.
 
 (* ------------------------------------------------------------------ *)
@@ -273,21 +273,10 @@ Proof.
   intros l1 l2 i t r H. revert i. induction H as [|a b l1 l2 Hab H IH]; intros [|i] Hr; cbn; constructor; auto.
 Qed.
 
-Definition ids_of (st : list srec) : list N := map (fun r => snd (fst r)) st.
-Lemma has_id_in : forall id st, has_id id st = true <-> In id (ids_of st).
-Proof.
-  intros id st. induction st as [|[[k i] h] st IH]; cbn; [split; [discriminate|tauto]|].
-  rewrite orb_true_iff, IH, N.eqb_eq. tauto.
-Qed.
-Lemma ids_upd : forall st i k id h h', nth_error st i = Some (k, id, h) ->
-  ids_of (upd_nth st i (k, id, h')) = ids_of st.
-Proof.
-  induction st as [|a st IH]; intros [|i] k id h h' Hn; cbn in *; try discriminate.
-  - inversion Hn; subst. reflexivity.
-  - f_equal. eapply IH; eauto.
-Qed.
-Lemma ids_of_app : forall a b, ids_of (a ++ b) = ids_of a ++ ids_of b.
-Proof. intros. unfold ids_of. apply map_app. Qed.
+
+
+
+
 Lemma upd_len : forall A (l : list A) i a, length (upd_nth l i a) = length l.
 Proof. induction l as [|b l IH]; intros [|i] a; cbn; auto. Qed.
 
